@@ -1,8 +1,8 @@
 #!/usr/bin/env python3
 """C18 (partial): the C interface is a faithful wrapper - checked modularly against the contracts of the C++ operations.
 
-Every wrapper of src/cinter/splinetable.cpp except the three that marshal array_view / unique_ptr arguments
-(splinetable_glamfit, splinetable_grideval, ndsparse_destroy) is extracted mechanically (R34: `real_table.op(args)` becomes
+Every wrapper of src/cinter/splinetable.cpp (all 30; the array_view marshalling of splinetable_glamfit / splinetable_grideval becomes
+(pointer, length) pairs, R38) is extracted mechanically (R34: `real_table.op(args)` becomes
 `vp_m_op(object, args)`; R22d: try{B}catch(std::exception&){H}catch(...){H'} becomes B with `if (thrown) {clear; H}` after every
 statement that calls a C++ operation) and executed from CBMC's GOTO program.  The C++ operations are ASSUMED CONTRACTS
 supplied by the check: each call either returns a scripted value or - when the operation's own text contains a throw
@@ -29,24 +29,24 @@ CORRESPONDS = {"splinetable_init": "construct", "readsplinefitstable": "construc
                "splinetable_nknots": "get_nknots", "splinetable_knots": "get_knots", "splinetable_knot": "get_knot", "splinetable_lower_extent": "lower_extent", "splinetable_upper_extent": "upper_extent",
                "splinetable_period": "get_period", "splinetable_ncoeffs": "get_ncoeffs", "splinetable_total_ncoeffs": "get_ncoeffs", "splinetable_stride": "get_stride", "splinetable_coefficients": "get_coefficients",
                "tablesearchcenters": "searchcenters", "ndsplineeval": "ndsplineeval", "ndsplineeval_gradient": "ndsplineeval_gradient", "ndsplineeval_deriv": "ndsplineeval_deriv",
-               "splinetable_convolve": "convolve", "splinetable_permute": "permuteDimensions"}
+               "splinetable_convolve": "convolve", "splinetable_permute": "permuteDimensions", "splinetable_glamfit": "fit", "splinetable_grideval": "grideval", "ndsparse_destroy": "destroy_ndsparse"}
 BOOL_OPS = ("read_key",)          # operations whose bool result reports failure (write_key returns false for a successful overwrite: not a failure signal)
 
 def build():
     fs, methods = units.cinter_functions()
     decl = ["#include <stdint.h>", "#include <stddef.h>", "#include <stdbool.h>", "struct splinetable{ void* data; };", "typedef enum { SPLINETABLE_INT, SPLINETABLE_DOUBLE } splinetable_dtype;",
-            "struct splinetable_buffer { void* data; size_t size; };", "int vp_thrown;", "void vp_copy(const void* first, const void* last, void* out);"]
+            "struct splinetable_buffer { void* data; size_t size; };", "struct ndsparse { size_t rows; size_t ndim; double* x; unsigned int** i; unsigned int* ranges; };", "struct vp_view { const void* d; size_t s; };", "int vp_thrown;", "void vp_copy(const void* first, const void* last, void* out);"]
     rets = {}
     for m, ts in sorted(methods.items()):
         if len(ts) > 1: raise units.ExtractionError("operation %s is used with different result types %s" % (m, ts))
-        rt = next(iter(ts)) if ts else ("void*" if m.startswith("construct") else ("bool" if m in BOOL_OPS + ("read_fits_mem", "write_key") else "void"))
+        rt = next(iter(ts)) if ts else ("void*" if m.startswith("construct") else "void" if m in ("fit", "destroy_ndsparse") else ("bool" if m in BOOL_OPS + ("read_fits_mem", "write_key") else "void"))
         rets[m] = rt
-        decl.append("%s vp_m_%s(%s);" % (rt, m, "void" if m == "construct" else ("const char* path" if m == "construct_from" else "void* obj, ...")))
+        decl.append("%s vp_m_%s(%s);" % (rt, m, "void" if m == "construct" else ("const char* path" if m == "construct_from" else ("struct ndsparse* nd" if m == "destroy_ndsparse" else "void* obj, ..."))))
     decl += ["%s;" % f.header for f in fs]
     text = "\n".join(decl) + "\n" + "".join(f.text(None) for f in fs)
     prog = G.Program.compile(text, vlib.workdir(), "cinter")
     params = {f.name: E.param_names(f.header, f.name) for f in fs}
-    throws = {m: (True if m in ("construct", "construct_from") else (False if m == "destroy" else units.may_throw(m))) for m in methods}
+    throws = {m: (True if m in ("construct", "construct_from") else (False if m in ("destroy", "destroy_ndsparse") else units.may_throw(m))) for m in methods}
     return prog, params, fs, rets, throws
 
 def make_args(it, header, name, variant):
@@ -54,15 +54,22 @@ def make_args(it, header, name, variant):
     plist = header[header.index("(") + 1:header.rindex(")")]; args = []; info = {}
     for p in [q.strip() for q in plist.split(",")]:
         pname = re.findall(r"(\w+)\s*$", p)[0]; ty = p[:p.rindex(pname)].strip()
-        if "struct splinetable_buffer" in ty:
+        if "struct ndsparse**" in ty.replace(" ", "").replace("structndsparse", "struct ndsparse"):
+            v = G.Ptr(it.array("result", [G.Ptr(it.new_obj("stale", 1), 0)]), 0); info["result"] = v
+        elif "struct ndsparse" in ty:
+            o = it.new_obj("ndsparse", 1); o.cells[0] = dict(rows=5, ndim=2, x=G.Ptr(it.array("dx", [F(1)] * 5), 0), i=G.NULL, ranges=G.Ptr(it.array("ranges", [4, 3]), 0)); v = G.Ptr(o, 0); info["data"] = o
+        elif ty.replace(" ", "") in ("constdouble*const*",):
+            v = G.Ptr(it.array(pname, [G.Ptr(it.array("%s%d" % (pname, k), [F(k)] * 6), 0) for k in range(4)]), 0)
+        elif "struct splinetable_buffer" in ty:
             o = it.new_obj("buffer", 1); o.cells[0] = dict(data=(G.NULL if name.startswith("write") else G.Ptr(it.new_obj("bytes", 1), 0)), size=(0 if name.startswith("write") else 5760)); v = G.Ptr(o, 0); info["buffer"] = o
         elif "struct splinetable" in ty:
             o = it.new_obj("handle", 1); tok = G.Ptr(it.new_obj("object", 1), 0); o.cells[0] = dict(data=(G.NULL if name == "splinetable_init" else tok)); v = G.Ptr(o, 0); info["handle"] = o; info["token"] = tok
         elif ty.replace(" ", "") in ("constchar*",): v = G.Ptr(it.array(pname, [ord(c) for c in "KEY"] + [0]), 0)
         elif "splinetable_dtype" in ty: v = variant.get("dtype", 0)
         elif ty.replace(" ", "") in ("void*", "constvoid*"): v = G.Ptr(it.array(pname, [41 if variant.get("dtype", 0) == 0 else F(Fr(5, 2))]), 0)
-        elif "*" in ty: v = G.Ptr(it.array(pname, [F(Fr(1, 3)) if "double" in ty else 2] * 4), 0)
-        else: v = {"dim": 1, "knot": 3, "derivatives": 5, "n_knots": 3}.get(pname, 2)
+        elif "*" in ty: v = G.Ptr(it.array(pname, [F(Fr(k + 1, 3)) for k in range(4)] if "double" in ty else [2, 3, 5, 7]), 0)      # pairwise different elements
+        elif ty == "bool": v = True
+        else: v = {"dim": 1, "knot": 3, "derivatives": 5, "n_knots": 3, "monodim": 1}.get(pname, 2)
         args.append(v); info.setdefault("values", []).append((pname, v))
     return args, info
 
@@ -79,6 +86,7 @@ def run_wrapper(args):
         def mk(m):
             def h(it_, a):
                 calls.append((m, list(a)))
+                if m == "destroy_ndsparse": return None
                 if m == "destroy":
                     if a[0].obj is not None: objects["destroyed"] += 1
                     return None
@@ -129,13 +137,14 @@ def run_wrapper(args):
                 same = (ret.obj is want.obj and ret.off == want.off) if isinstance(want, G.Ptr) else ((ret.num == want.num) if isinstance(want, G.FV) else ret == want)
                 ob("O3 the operation's value is passed on exactly", same, "returned %r, operation gave %r" % (ret, want))
         if name in CORRESPONDS:
-            called = [c[0] for c in calls if c[0] != "destroy" and not (c[0] == "get_ndim" and name == "splinetable_permute")]
+            called = [c[0] for c in calls if c[0] != "destroy" and not (c[0] == "get_ndim" and name in ("splinetable_permute", "splinetable_grideval"))]
             ob("O4 the wrapper calls its corresponding C++ operation (%s) exactly once" % CORRESPONDS[name], called == [CORRESPONDS[name]] or (name == "readsplinefitstable_mem" and called == ["read_fits_mem"]), "operations called: %s" % called)
         # O4: arguments reach the operation unchanged (the object first, then the wrapper's own arguments in order, as far as the operation takes them)
-        if main and main[-1][0] not in ("construct", "construct_from", "get_ndim"):
+        if main and main[-1][0] not in ("construct", "construct_from", "get_ndim", "destroy_ndsparse"):
             m, a = main[-1]; bad = []
             if not (isinstance(a[0], G.Ptr) and a[0].obj is info["token"].obj): bad.append("the operation is called on another object than the handle's")
             given = [v for (pn, v) in info["values"] if pn not in ("table", "type", "buffer")]
+            if m in ("fit", "grideval"): given = []
             passed = a[1:]
             def eq(x, y): return (x.obj is y.obj and x.off == y.off) if isinstance(x, G.Ptr) and isinstance(y, G.Ptr) else (x == y if not isinstance(x, G.FV) else (isinstance(y, G.FV) and x.num == y.num))
             if m in ("read_key", "write_key"):
@@ -147,9 +156,28 @@ def run_wrapper(args):
                 b = info["buffer"].cells[0]
                 if not (eq(passed[0], b["data"]) and passed[1] == b["size"]): bad.append("buffer pointer / size not passed on")
             elif m == "write_fits_mem": pass
+            elif m == "fit":
+                g = dict(info["values"]); dd = info["data"].cells[0]; nd_ = dd["ndim"]
+                def view(p, k=0): d_ = p.obj.cells[p.off + k]; return d_.get("d"), d_.get("s")
+                def arr(p, k): return p.obj.cells[p.off + k]
+                chk = [("data", eq(passed[0], g["data"])), ("weights view", eq(view(passed[1])[0], g["weights"]) and view(passed[1])[1] == dd["rows"]),
+                       ("coordinate views", passed[3] == nd_ and all(eq(view(passed[2], k)[0], arr(g["coords"], k)) and view(passed[2], k)[1] == arr(dd["ranges"], k) for k in range(nd_))),
+                       ("order view", eq(view(passed[4])[0], g["splineOrder"]) and view(passed[4])[1] == nd_),
+                       ("knot views", passed[6] == nd_ and all(eq(view(passed[5], k)[0], arr(g["knots"], k)) and view(passed[5], k)[1] == arr(g["nknots"], k) for k in range(nd_))),
+                       ("smoothing view", eq(view(passed[7])[0], g["smoothing"]) and view(passed[7])[1] == nd_), ("penalty-order view", eq(view(passed[8])[0], g["penaltyOrder"]) and view(passed[8])[1] == nd_),
+                       ("monodim", passed[9] == g["monodim"]), ("verbose", bool(passed[10]) == bool(g["verbose"]))]
+                bad += ["%s not passed on as (pointer, length)" % n for n, ok_ in chk if not ok_]
+            elif m == "grideval":
+                g = dict(info["values"])
+                def view(p, k=0): d_ = p.obj.cells[p.off + k]; return d_.get("d"), d_.get("s")
+                if passed[1] != 3 or not all(eq(view(passed[0], k)[0], g["coords"].obj.cells[k]) and view(passed[0], k)[1] == g["ncoords"].obj.cells[k] for k in range(3)): bad.append("grid coordinate views are not (coords[i], ncoords[i])")
             else:
                 if len(passed) != len(given) or not all(eq(x, y) for x, y in zip(passed, given)): bad.append("arguments %r, wrapper received %r" % (passed, given))
             ob("O4 arguments reach the operation unchanged", not bad, "; ".join(bad))
+        if name == "splinetable_grideval":
+            cell = info["result"].obj.cells[0]
+            if failed: ob("O2 a failing grid evaluation leaves *result NULL", isinstance(cell, G.Ptr) and cell.obj is None, "*result = %r" % (cell,))
+            else: ob("O3 the result of the grid evaluation is handed to the caller", isinstance(cell, G.Ptr) and cell.obj is PTRS.get("grideval").obj, "*result = %r" % (cell,))
         if name == "writesplinefitstable_mem" and not failed:
             b = info["buffer"].cells[0]
             ob("O3 the buffer and its size are handed to the caller", isinstance(b["data"], G.Ptr) and b["data"].obj is not None and b["size"] == 8640, "buffer %r size %r" % (b["data"], b["size"]))
@@ -254,7 +282,7 @@ def main():
     rep.extra["rule"] = "one evaluation = one wrapper call with one scripted outcome of the C++ operation, or one handle life-cycle sequence; non-trivial = the operation fails, or the sequence has at least two calls"
     rep.extra["may_throw"] = {m: bool(v) for m, v in sorted(throws.items())}
     rep.assume("PARTIAL / MODULAR: the C++ operations are assumed contracts (return a value or - if their text contains a throw statement or an allocation - throw); what they compute and whether THEY leak is C01-C20, not decided here",
-               "splinetable_glamfit, splinetable_grideval and ndsparse_destroy are not extracted (array_view / unique_ptr marshalling); call sequences over several handles are not needed because a wrapper touches only its own handle (checked: the operation is called on the handle's object)",
+               "call sequences over several handles are not needed because a wrapper touches only its own handle (checked: the operation is called on the handle's object)",
                "which operations may throw is decided by a text scan of their definitions in the headers (throw, new, allocate<T>, std::vector/string/stringstream/unique_ptr/make_pair, malloc); an operation classified no-throw is never made to throw",
                "exceptions are a ghost flag (R7 / R22d): the `catch(std::exception&)` handler is the one modelled (every exception the operations throw derives from std::exception; its message to stderr is dropped), `catch(...)` is not")
     rep.trust("tools/gotoexec.py", "goto-cc front end", "tools/extract.py rules")
